@@ -177,6 +177,8 @@ def run_case(res, case, sigs, attempt=0):
     os.mkdir(storage_dir)
     received = []            # what the handler saw
     lock = threading.Lock()
+    # concurrent senders negotiate different transfer syntaxes (same context id on every association)
+    ts_of = [TS[(TS.index(ts) + k) % 3] if concurrent else ts for k in range(nstores)]
     datasets = []
     for k in range(nstores):
         size = r.choice([5, chunk - 1, chunk, chunk + 1, 3 * chunk + 2, min(40 * chunk, 200000)])
@@ -236,10 +238,9 @@ def run_case(res, case, sigs, attempt=0):
                     server.add_scp(sopclass.storage_scp)
                 with tcpnet.serving(server):
                     remote = {'aet': 'STORESCP', 'address': '127.0.0.1', 'port': server.port}
-                    u = uid.UID(ts)
-
                     def client_run(ks, out):
-                        client = applicationentity.ClientAE('STORESCU', supported_ts=[ts],
+                        u = uid.UID(ts_of[ks[0]])
+                        client = applicationentity.ClientAE('STORESCU', supported_ts=[ts_of[ks[0]]],
                                                             max_pdu_length=client_max)
                         client.timeout = 5
                         client.add_scu(sopclass.storage_scu, [svc.CT, svc.MR])
@@ -286,7 +287,7 @@ def run_case(res, case, sigs, attempt=0):
             res.count('flaky-timeouts')
             return run_case(res, case, sigs, attempt + 1)
         judge(res, case, where, error, datasets, received, returned, outcomes, snaps, storage_dir,
-              mode, ts, sop_class, concurrent, hits_before)
+              mode, ts_of, sop_class, concurrent, hits_before)
     finally:
         _watch['dirs'].remove(storage_dir)
         shutil.rmtree(workdir, ignore_errors=True)
@@ -345,7 +346,7 @@ def memory_scp(classes):
     return scp
 
 
-def judge(res, case, where, error, datasets, received, returned, outcomes, snaps, storage_dir, mode, ts,
+def judge(res, case, where, error, datasets, received, returned, outcomes, snaps, storage_dir, mode, ts_of,
           sop_class, concurrent, hits_before):
     import pydicom
     res.sample({'case': case, 'where': where, 'returned': ['%d:%04X' % (k, s) for k, s in returned],
@@ -369,6 +370,10 @@ def judge(res, case, where, error, datasets, received, returned, outcomes, snaps
             res.violation('content-differs', 'C15.content', '%s: handler received %s with other content '
                           'than any data set sent' % (where, entry.get('tag')), case)
         seen.append(entry['canon'])
+        try:
+            ts = ts_of[int(str(entry.get('tag')).split('^')[-1])]
+        except (IndexError, ValueError):
+            ts = ts_of[0]
         if entry['sop_class'] != sop_class or entry['ts'] != ts:
             res.violation('context-differs', 'C15.content', '%s: handler context %s / %s' % (
                 where, entry['sop_class'], entry['ts']), case)
